@@ -339,3 +339,11 @@ func (e *End) Writes() int { return e.writes }
 
 // EnvClose closes this end on behalf of the environment (not counted in Closes).
 func (e *End) EnvClose() { e.p.mon.Do(e.Name+".envclose", nil, func() { e.envClose() }) }
+
+// WaitDelivered parks the caller until this end has read at least n bytes written by the peer
+// (an application "thinking" until data has arrived).
+func (e *End) WaitDelivered(n int) {
+	e.p.mon.Do(e.Name+".wait-delivered", func() bool {
+		return e.rd.taken >= n || e.closed || e.p.dead || e.rd.wclosed
+	}, func() {})
+}
